@@ -1,8 +1,10 @@
 package main
 
 import (
+	"fmt"
 	"go/ast"
 	"go/types"
+	"strings"
 )
 
 // copiers returns the in-package functions func(reflect.Value) reflect.Value whose body
@@ -75,6 +77,173 @@ func vectorStores(ic *IC, body ast.Node, vec types.Object) []vecStore {
 			}
 			if id, ok := unparen(ix.X).(*ast.Ident); ok && ic.Info.ObjectOf(id) == vec {
 				out = append(out, vecStore{ix.Index, as.Rhs[i], as})
+			}
+		}
+		return true
+	})
+	return out
+}
+
+// freshSlotExceptions: stores into a fresh frame that deliberately alias something else,
+// keyed "<function>: <range source>" for a call of a ranged-over closure.
+var freshSlotExceptions = map[string]string{
+	"call: rvalues": "result slots of an interpreted call are the caller's destination slots when the call's results are assigned directly (rvalues generators are non-nil only for those): the callee writes its results in place by design",
+}
+
+// freshFrameSlots decides, for every function (literal) that creates a frame with newFrame,
+// that the slots of the new frame are bound only to fresh storage: reflect.New(t).Elem(),
+// a copier, or a function value wrapper. Arguments and receivers must be copied into the
+// slots with Set; binding a slot to a value derived from the caller (src.Elem(), v(f)) makes
+// the activation share the caller's variable: a value receiver reached through a pointer
+// would be modified in place, and two activations would see each other's locals.
+func freshFrameSlots(ic *IC, r *Report, rule string) {
+	cp := copiers(ic)
+	// in-package functions that build a reflect.MakeFunc value
+	wrappers := map[*types.Func]bool{}
+	for _, fi := range ic.F {
+		if fi.Decl.Body != nil && fi.Obj != nil && len(callsIn(ic.Info, fi.Decl.Body, true, "reflect.MakeFunc")) > 0 {
+			wrappers[fi.Obj] = true
+		}
+	}
+	dataFld := ic.field("frame", "data")
+	if dataFld == nil {
+		r.Errorf("anchor not resolved: frame.data")
+		return
+	}
+	nFrames, nStores := 0, 0
+	cnt := map[string]int{}
+	for _, name := range sortedKeys(ic.F) {
+		fi := ic.F[name]
+		if fi.Decl.Body == nil {
+			continue
+		}
+		// every newFrame assignment in this declaration
+		ast.Inspect(fi.Decl.Body, func(nd ast.Node) bool {
+			as, ok := nd.(*ast.AssignStmt)
+			if !ok || len(as.Lhs) != 1 || len(as.Rhs) != 1 {
+				return true
+			}
+			call, ok := unparen(as.Rhs[0]).(*ast.CallExpr)
+			if !ok || !isCallTo(ic.Info, call, "interp.newFrame") {
+				return true
+			}
+			id, ok := as.Lhs[0].(*ast.Ident)
+			if !ok {
+				return true
+			}
+			fr := ic.Info.ObjectOf(id)
+			if fr == nil {
+				return true
+			}
+			nFrames++
+			cnt[name]++
+			// scope: the innermost function body containing the assignment
+			var scope ast.Node = fi.Decl.Body
+			for _, p := range enclosingPath(fi.Decl.Body, as) {
+				if fl, ok := p.(*ast.FuncLit); ok {
+					scope = fl.Body
+				}
+			}
+			// rootedInData: e is fr.data, an alias, or a slice expression of one
+			alias := map[types.Object]bool{}
+			var rooted func(e ast.Expr) bool
+			rooted = func(e ast.Expr) bool {
+				switch x := unparen(e).(type) {
+				case *ast.SelectorExpr:
+					if selField(ic.Info, x) == dataFld {
+						if xid, ok := unparen(x.X).(*ast.Ident); ok && ic.Info.ObjectOf(xid) == fr {
+							return true
+						}
+					}
+				case *ast.SliceExpr:
+					return rooted(x.X)
+				case *ast.Ident:
+					return alias[ic.Info.ObjectOf(x)]
+				}
+				return false
+			}
+			for changed := true; changed; {
+				changed = false
+				ast.Inspect(scope, func(m ast.Node) bool {
+					if a2, ok := m.(*ast.AssignStmt); ok && len(a2.Lhs) == len(a2.Rhs) {
+						for i, rhs := range a2.Rhs {
+							if lid, ok := a2.Lhs[i].(*ast.Ident); ok && rooted(rhs) {
+								if o := ic.Info.ObjectOf(lid); o != nil && !alias[o] {
+									alias[o] = true
+									changed = true
+								}
+							}
+						}
+					}
+					return true
+				})
+			}
+			var bad []string
+			stores := 0
+			ast.Inspect(scope, func(m ast.Node) bool {
+				a2, ok := m.(*ast.AssignStmt)
+				if !ok || len(a2.Lhs) != len(a2.Rhs) {
+					return true
+				}
+				for i, l := range a2.Lhs {
+					ix, ok := unparen(l).(*ast.IndexExpr)
+					if !ok || !rooted(ix.X) {
+						continue
+					}
+					stores++
+					rhs := a2.Rhs[i]
+					if isFreshValue(ic, cp, rhs) {
+						continue
+					}
+					if c, ok := unparen(rhs).(*ast.CallExpr); ok {
+						// wrapper(...)(f): a function value built by reflect.MakeFunc
+						if inner, ok := unparen(c.Fun).(*ast.CallExpr); ok {
+							if f, ok := calleeOf(ic.Info, inner).(*types.Func); ok && wrappers[f] {
+								continue
+							}
+						}
+						// v(f) with v ranging over a frozen exception source
+						if vid, ok := unparen(c.Fun).(*ast.Ident); ok {
+							if src := rangeSourceOf(ic, scope, ic.Info.ObjectOf(vid)); src != "" {
+								if _, ok := freshSlotExceptions[name+": "+src]; ok {
+									continue
+								}
+							}
+						}
+					}
+					bad = append(bad, types.ExprString(l)+" = "+types.ExprString(rhs)+" at "+ic.pos(a2.Pos()))
+				}
+				return true
+			})
+			nStores += stores
+			key := fmt.Sprintf("%s/newFrame#%d/slots-fresh", name, cnt[name])
+			if stores == 0 {
+				r.Pass(rule, key, ic.pos(as.Pos()), "no slot of the new frame is rebound here (newFrame allocates them)")
+				return true
+			}
+			r.Check(len(bad) == 0, rule, key, ic.pos(as.Pos()), fmt.Sprintf("%d slot bindings, all to fresh storage (or a frozen exception)", stores),
+				"a slot of the frame created here is bound to a value that is not fresh storage: "+strings.Join(bad, "; ")+": the activation shares that variable with its caller instead of working on a copy (a value receiver reached through a pointer is modified in place; concurrent activations see each other's data)")
+			return true
+		})
+	}
+	if nFrames < 4 || nStores < 5 {
+		r.Errorf("%s: %d frames created by newFrame and %d slot bindings found; 4 and 5 confirmed by reading", rule, nFrames, nStores)
+	}
+}
+
+// rangeSourceOf returns the name of the variable ranged over by the range statement of scope
+// whose value variable is v, or "".
+func rangeSourceOf(ic *IC, scope ast.Node, v types.Object) string {
+	out := ""
+	if v == nil {
+		return ""
+	}
+	ast.Inspect(scope, func(n ast.Node) bool {
+		if rs, ok := n.(*ast.RangeStmt); ok {
+			if id, ok := rs.Value.(*ast.Ident); ok && ic.Info.ObjectOf(id) == v {
+				if sid, ok := unparen(rs.X).(*ast.Ident); ok {
+					out = sid.Name
+				}
 			}
 		}
 		return true
